@@ -7,7 +7,7 @@
     written earlier moves that cell down, which is how the template's lower sections end up
     below the transaction rows).
 
-    Two structural facts of the source are parameters ([ys], [pe]); the translator reads them from
+    Three structural facts of the source are parameters ([ys], [pe], and [yg], see below); the translator reads them from
     the working tree (Generated.gen_jp_years_sorted, gen_jp_prev_existing_year):
       ys = the per-asset loop iterates the years in sorted order (false: dict order = first-seen
            order over in ++ out ++ intra);
@@ -49,6 +49,10 @@ Definition type_text (t : ttype) : str := upper (ttype_value t).
 
 Section Lang.
 Variable lang : Z.
+(** [yg]: in __process_intra_transaction the yen value of a transfer fee is kept when the CRYPTO fee is > 0 (true, the
+    repaired source) or when the YEN value itself is > 0 at 13 decimals (false: a fee worth less than 5e-14 yen then has a
+    sold amount but no yen value -- finding F14); read from the source: Generated.gen_jp_intra_yen_guard_on_crypto *)
+Variable yg : bool.
 Definition tax_sheet_name (asset : str) (year : Z) : str :=
   let '(a, b, c) := gen_jp_name_fmt lang in a ++ asset ++ b ++ str_of_Z year ++ c.
 Definition summary_sheet_name (year : Z) : str :=
@@ -103,7 +107,7 @@ Definition process_intra (a : intratx) : jrow :=
      jr_fee := dzero; jr_gift := dzero;
      jr_pur_amt := None; jr_pur_yen := None;
      jr_sale_amt := if dgtb fee dzero then Some fee else None;
-     jr_sale_yen := if dgtb yen dzero then Some yen else None;
+     jr_sale_yen := if (if yg then dgtb fee dzero else dgtb yen dzero) then Some yen else None;
      jr_donated := None |}.
 
 Definition process (t : txn) : jrow :=
@@ -267,18 +271,18 @@ End Rows.
 End Lang.
 
 (** ---------- Generator.generate *)
-Definition all_emissions (lang : Z) (ys pe : bool) (exchanges : list str) (l : list (rasset * computed)) : list emission :=
-  flat_map (fun ac => asset_emissions lang exchanges ys pe (ra_name (fst ac)) (chain_of (snd ac))) l.
+Definition all_emissions (lang : Z) (yg ys pe : bool) (exchanges : list str) (l : list (rasset * computed)) : list emission :=
+  flat_map (fun ac => asset_emissions lang yg exchanges ys pe (ra_name (fst ac)) (chain_of (snd ac))) l.
 
-Definition jp_report (lang : Z) (ys pe : bool) (i : rinput) : result (list sheetw) :=
+Definition jp_report (lang : Z) (yg ys pe : bool) (i : rinput) : result (list sheetw) :=
   match computed_all i (rp_assets i) with
   | Err e => Err e
   | Ok l =>
     if negb (rp_from i =? MIN_DAY) && negb (rp_to i =? MAX_DAY) then Err EInternal     (* RP2RuntimeError: F7 *)
     else
-      let ems := all_emissions lang ys pe (rp_exchanges i) l in
-      if existsb (em_raises lang (rp_exchanges i)) ems then Err EValue                 (* ezodf: invalid value: None *)
-      else Ok (report_of lang (rp_exchanges i) ems)
+      let ems := all_emissions lang yg ys pe (rp_exchanges i) l in
+      if existsb (em_raises lang yg (rp_exchanges i)) ems then Err EValue                 (* ezodf: invalid value: None *)
+      else Ok (report_of lang yg (rp_exchanges i) ems)
   end.
 
 (** the text of a cross-sheet reference  ='<name>'.<L><row1>  (row1 counted from 1, as spreadsheets do) *)
